@@ -623,7 +623,21 @@ def eval_crystals(ctx, d):
               info={"impl_lattices": impl, "error": err})
 
 
-KNOWN_CLASSES = {"crystals_zero_importance_feature": lambda case: crystals_degenerate(case.desc)}
+_D13_ERROR = "ValueError: cannot convert float NaN to integer"
+
+
+def _d13(case):
+  """D13, identified by input class AND symptom: a crystals configuration with a zero-importance feature on which
+  _get_final_crystal_lattices RAISES exactly the int(round(nan)) ValueError. A degenerate configuration that returns
+  a wrong ensemble (wrong count / rank / uncovered feature / non-deterministic) or raises anything else is reported."""
+  if not crystals_degenerate(case.desc):
+    return False
+  info = case.info if isinstance(case.info, dict) else {}
+  return (info.get("impl_lattices") is None and (info.get("error") or "").startswith(_D13_ERROR) and
+          (case.pred_fail or "").startswith("_get_final_crystal_lattices raised %s for a valid config" % _D13_ERROR))
+
+
+KNOWN_CLASSES = {"crystals_zero_importance_feature": _d13}
 
 
 # --------------------------------------------------------------------------
